@@ -277,9 +277,9 @@ def route_observations(res, rng):
         if len(rs) != len(positions):
             continue
         nodes = d["nodes"]
-        idnum = {d["math"]: 0}
+        idnum = {C.norm_ids(d["math"]): 0}
         for k, nd in enumerate(nodes):
-            idnum.setdefault(nd[0], k + 1)
+            idnum.setdefault(C.norm_ids(nd[0]), k + 1)
         pos = [0]
 
         def term():
@@ -291,8 +291,8 @@ def route_observations(res, rng):
         t = term()
         answers = []
         for p, x in zip(positions, rs):
-            if "ok" in x and x["ok"][0] in idnum:
-                answers.append("(%d, Some (%d, %d))" % (p, idnum[x["ok"][0]], x["ok"][1]))
+            if "ok" in x and C.norm_ids(x["ok"][0]) in idnum:
+                answers.append("(%d, Some (%d, %d))" % (p, idnum[C.norm_ids(x["ok"][0])], x["ok"][1]))
             else:
                 answers.append("(%d, None)" % p)
         items.append("(%s, %d, [%s])" % (t, d["blen"], "; ".join(answers)))
@@ -366,6 +366,7 @@ def run(res):
                 "non-trivial = distinct (code, style, operation, expression) with an Ok result")
     rng = random.Random(res.seed * 77 + 20)
     obs = generate(res)
+    route_cases = route_observations(res, random.Random(res.seed * 131 + 7))
     for s, c, f, x in obs:
         res.add_case(("str", s, c, f), nontrivial=("ok" in x and x["ok"][0] != s))
 
@@ -380,12 +381,12 @@ def run(res):
         n += api_oracle(res, rng)
         n += history_oracle(res, rng)
         return n > 0
-    proved = C.check_proofs(res, "C20", ["Props/C20.vo", "Tie/C20Tie.vo"], "Props/C20.v", search=on_broken)
+    proved = C.check_proofs(res, "C20", ["Props/C20.vo", "Tie/C20Tie.vo", "Tie/RouteTie.vo"], "Props/C20.v", search=on_broken)
     if proved:
         api_oracle(res, rng)
         history_oracle(res, rng)
     res.trusted += ["braille rules + clean-up produce the string that highlight_braille_chars receives (oracle)",
-                    "the routing search find_navigation_node (termination, probe order) is not modelled: exercised for every cell position"]
+                    "what the braille rules produce (the cells of each element, the estimates) is data of the routing model, read from the library by a hook"]
     res.assumptions += ["purity of get_braille / get_braille_position / routing is checked on the library (preference dump, navigation id, outputs), not proved"]
 
 
